@@ -102,9 +102,9 @@ class Table(DBObject):
     typename = 'Table'
     def __init__(table, name, schema, entity=None):
         if name in schema.tables:
-            throw(DBSchemaError, "Table %r already exists in database schema" % name)
+            throw(DBSchemaError, "Table %r already exists in database schema" % (name,))
         if schema.name_key(name, is_table=True) in schema.names:
-            throw(DBSchemaError, "Table %r cannot be created, name is already in use" % name)
+            throw(DBSchemaError, "Table %r cannot be created, name is already in use" % (name,))
         schema.check_name_length(table.typename, name)
         schema.tables[name] = table
         schema.names[schema.name_key(name, is_table=True)] = table
